@@ -15,7 +15,7 @@ def main():
     for name in sys.argv[1:]:
         d = os.path.join(VERIF, "seeded", name)
         prop = name.split("-")[0]
-        wt = f"/tmp/wt_eval_{prop}"
+        wt = f"/tmp/wt_eval_{os.environ.get('EVAL_PROP', prop)}"
         if not os.path.isdir(wt):
             sh(f"git -C /repo worktree add -f {wt} HEAD")
         head = sh("git -C /repo rev-parse HEAD").stdout.strip()
@@ -24,7 +24,7 @@ def main():
         if r.returncode != 0:
             print(name, "patch does not apply:", r.stderr[-300:])
             continue
-        mod = "checks." + prop.lower()
+        mod = "checks." + os.environ.get("EVAL_PROP", prop).lower()
         t0 = time.time()
         env = dict(os.environ, EXO_REPO=wt)
         extra = os.environ.get("EVAL_ARGS", "")
@@ -52,6 +52,21 @@ def main():
             "wall_s": round(time.time() - t0),
             "repo_head": head,
         }
+        if os.environ.get("EVAL_PROP") and os.environ["EVAL_PROP"] != prop:
+            # cross evaluation: record under "other_checks" without touching the main verdict
+            try:
+                old = json.load(open(os.path.join(d, "meta.json")))
+            except Exception:
+                old = {}
+            oc = old.get("other_checks", {})
+            oc[os.environ["EVAL_PROP"]] = {"detected": res["detected"], "violation_lines": res["violation_lines"][:4], "what_i_ran": res["what_i_ran"]}
+            old["other_checks"] = oc
+            res = old
+        else:
+            try:
+                res["other_checks"] = json.load(open(os.path.join(d, "meta.json"))).get("other_checks", {})
+            except Exception:
+                pass
         json.dump(res, open(os.path.join(d, "meta.json"), "w"), indent=1)
         print(name, "exit", r.returncode, "detected" if res["detected"] else "MISSED", viol[:4], f"{res['wall_s']}s", flush=True)
         if r.returncode not in (0, 1):
